@@ -9,14 +9,14 @@ R = "world R (regulator: simulated instruction-following tables, registrar, dire
 checks = {
  "C01": (E, "7/C01", "chip invariants (bankroll identity, non-negativity, round pot, published pots, zero-sum result) evaluated after every delivered operation - accepted, refused, duplicated, stale, post-restart - of every simulated hand; plus world Y: the same hands played by 2-3 concurrent goroutines over a generated copy of the working tree with a scheduling point before every engine statement, one goroutine at a time under the PRNG, each hand compared with itself run alone"),
  "C02": (E, "7/C02", "independent per-pot reference settlement computed from (contribution, fold, strength) at every GameClosed reached by simulated play; tie-rich rigged decks; contribution vectors are those arising from play; plus world Y: the same hands played by 2-3 concurrent goroutines over a generated copy of the working tree with a scheduling point before every engine statement, one goroutine at a time under the PRNG, each hand compared with itself run alone"),
- "C04": (E, "7/C04", "turn-order predicates at every wait point plus refusal-without-effect for every illegitimate delivery produced by transport faults and byzantine clients, and a sampled cross product (seat x operation) probed on a cold-restarted clone at every wait point"),
- "C05": (E, "7/C05", "harness-side tracking of 'had a turn since the last increase' and laps since the last aggression, checked at every round close / street transition of every simulated hand"),
- "C06": (E, "7/C06", "awaited-step model (the single awaited step succeeds), street order, result-iff-closed, Start() validation on invalid configurations, bounded progress to GameClosed once faults stop (including the staller strategy that never moves a chip), no state ever repeats after an accepted operation (no cycle), a closed hand refuses the full seat x operation cross product"),
+ "C04": (E, "7/C04", "turn-order predicates at every wait point plus refusal-without-effect for every illegitimate delivery produced by transport faults and byzantine clients, and a sampled cross product (seat x operation) probed on a cold-restarted clone at every wait point; plus world Y: the same hands played by 2-3 concurrent goroutines over a generated copy of the working tree with a scheduling point before every engine statement, one goroutine at a time under the PRNG, each hand compared with itself run alone"),
+ "C05": (E, "7/C05", "harness-side tracking of 'had a turn since the last increase' and laps since the last aggression, checked at every round close / street transition of every simulated hand; plus world Y: the same hands played by 2-3 concurrent goroutines over a generated copy of the working tree with a scheduling point before every engine statement, one goroutine at a time under the PRNG, each hand compared with itself run alone"),
+ "C06": (E, "7/C06", "awaited-step model (the single awaited step succeeds), street order, result-iff-closed, Start() validation on invalid configurations, bounded progress to GameClosed once faults stop (including the staller strategy that never moves a chip), no state ever repeats after an accepted operation (no cycle), a closed hand refuses the full seat x operation cross product; plus world Y: the same hands played by 2-3 concurrent goroutines over a generated copy of the working tree with a scheduling point before every engine statement, one goroutine at a time under the PRNG, each hand compared with itself run alone"),
  "C07": (E, "7/C07", "crash consistency: the primary is rebuilt from its JSON (cold restart, server crash before/after the state is durable) or driven through table.NativeBackend at PRNG-chosen deliveries and compared, state and error, with a never-restarted in-memory shadow after every delivery; backend input immutability; hands created through the backend; determinism clause by twin execution (a hand with the other ranking table played first on the same deck vs. the suit-rotated deck) and neighbour hands in the same process; plus world Y: the same hands played by 2-3 concurrent goroutines over a generated copy of the working tree with a scheduling point before every engine statement, one goroutine at a time under the PRNG, each hand compared with itself run alone"),
  "C10": (E, "7/C10", "independent evaluator over all admissible five-card selections for every street dealt in simulated hands (2-hole and 4-hole/2-required, both decks), including after restarts; plus world Y: the same hands played by 2-3 concurrent goroutines over a generated copy of the working tree with a scheduling point before every engine statement, one goroutine at a time under the PRNG, each hand compared with itself run alone"),
- "C11": (E, "7/C11", "situation-to-offer implications at every RoundStarted wait point and effect checks on every accepted action, with stacks drawn around every boundary"),
- "C12": (E, "7/C12", "independent min-raise tracking under all defensible readings (lo/hi) from observed effects; hostile amounts (negative, 0, tiny, boundary, huge) from byzantine and honest clients; chip bounds after every delivery"),
- "C13": (E, "7/C13", "forced-bet postconditions on the state the first betting round opens from, for every simulated hand; stacks drawn below / at / above every forced amount; dead small blind, dealer blind, ante-only games"),
+ "C11": (E, "7/C11", "situation-to-offer implications at every RoundStarted wait point and effect checks on every accepted action, with stacks drawn around every boundary; plus world Y: the same hands played by 2-3 concurrent goroutines over a generated copy of the working tree with a scheduling point before every engine statement, one goroutine at a time under the PRNG, each hand compared with itself run alone"),
+ "C12": (E, "7/C12", "independent min-raise tracking under all defensible readings (lo/hi) from observed effects; hostile amounts (negative, 0, tiny, boundary, huge) from byzantine and honest clients; chip bounds after every delivery; plus world Y: the same hands played by 2-3 concurrent goroutines over a generated copy of the working tree with a scheduling point before every engine statement, one goroutine at a time under the PRNG, each hand compared with itself run alone"),
+ "C13": (E, "7/C13", "forced-bet postconditions on the state the first betting round opens from, for every simulated hand; stacks drawn below / at / above every forced amount; dead small blind, dealer blind, ante-only games; plus world Y: the same hands played by 2-3 concurrent goroutines over a generated copy of the working tree with a scheduling point before every engine statement, one goroutine at a time under the PRNG, each hand compared with itself run alone"),
  "C14": (E, "7/C14", "deck-prefix accounting (hole + board + burned = consumed top of the deck pinned in place, no duplicate, shapes per street, dealt cards immutable) after every delivery, also while neighbour hands are started in the same process; hole/required combinations 2/0, 4/2, 2/2, 3/2, 4/0; shuffle is a permutation; plus world Y: the same hands played by 2-3 concurrent goroutines over a generated copy of the working tree with a scheduling point before every engine statement, one goroutine at a time under the PRNG, each hand compared with itself run alone"),
  "C15": (E, "7/C15", "field-agnostic taint scan of the JSON of every redacted view (observer and seats) at every state reached, hidden evaluations, own seat and public information unchanged; plus world Y: the same hands played by 2-3 concurrent goroutines over a generated copy of the working tree with a scheduling point before every engine statement, one goroutine at a time under the PRNG, each hand compared with itself run alone"),
  "C16": (E, "7/C16", "pot partition predicates at every publication point (ante, every RoundClosed, GameClosed) of every simulated hand; contribution vectors are those arising from play; plus world Y: the same hands played by 2-3 concurrent goroutines over a generated copy of the working tree with a scheduling point before every engine statement, one goroutine at a time under the PRNG, each hand compared with itself run alone"),
